@@ -2249,6 +2249,9 @@ class ConjPtsMacro(Macro):
         self.limit = None
 
     def eval(self, args, prevs):
+        # Thm.lhs / Thm.rhs look through implications
+        if not all(pt.prop.is_equals() for pt in prevs):
+            raise VeriTException("conj_pts", "every premise should be an equality")
         lhs_set = [pt.lhs for pt in prevs]
         rhs_set = []
         for pt in prevs:
@@ -2284,6 +2287,9 @@ class DisjPtsMacro(Macro):
         self.limit = None
 
     def eval(self, args, prevs):
+        # Thm.lhs / Thm.rhs look through implications
+        if not all(pt.prop.is_equals() for pt in prevs):
+            raise VeriTException("disj_pts", "every premise should be an equality")
         lhs_set = [pt.lhs for pt in prevs]
         rhs_set = []
         for pt in prevs:
